@@ -6,7 +6,7 @@ from manifest_table import CHECKS, NOT_APPLICABLE  # noqa
 
 m = {
     "version": 1,
-    "setup_cmd": "python3 build/gen.py ossl-asan botan-asan ossl-sched ref",
+    "setup_cmd": "python3 build/gen.py ossl-asan botan-asan ref",
     "hooks": {
         "guard": "SOFTHSM_VERIF",
         "enable": "n/a - no guarded code exists: observation uses link-time --wrap, coverage callbacks and SOFTHSM2_CONF; build/gen.py --guard would add -DSOFTHSM_VERIF",
